@@ -15,7 +15,7 @@ wraps it in `verus! { ... }`, and overlays contract text from an overlay file:
 
 The only edits to copied text are the rewrite rules documented in DESIGN.md section 4.2
 (R1 `|_|`->`|_x|`, R2 drop docs/#[inline]/#[doc]/#[test] items, R3 peek-loop
-normalisation, R5 named return value, R6 `.peekable()`, R7 `for P in &E`, R8 `.iter().filter_map(..).collect()`).  Every rule application is recorded in the
+normalisation, R5 named return value, R6 `.peekable()`, R7 `for P in &E`, R8 `.iter().filter_map(..).collect()`, R9 `.map(closure)`, R10 `for P in <&mut impl Iterator>`).  Every rule application is recorded in the
 returned manifest so that the evidence can list exactly what differs from /repo.
 """
 import hashlib
@@ -276,6 +276,9 @@ class Overlay:
                 elif d[0] == 'r9':
                     fn['r9'] = True
                     cur = ('fn-spec-ignore', None)
+                elif d[0] == 'r10':
+                    fn.setdefault('r10', []).append(int(d[1]))
+                    cur = None
                 elif d[0] == 'at':
                     # @@at <n> before|after | anchor text
                     at = {'n': int(d[1]), 'where': d[2], 'anchor': s[2:].split('|', 1)[1].strip(), 'text': ''}
@@ -318,6 +321,7 @@ class Assembler:
         self.manifest = {'functions': [], 'rules': [], 'external': [], 'dropped': [], 'files': []}
         self.errors = []
         self.degraded = []
+        self.force_degrade = {}   # (rel, header, name) -> reason: emit these with their contract only (compile error in the annotated body)
         self.module_head = '#[allow(unused_imports)] use vstd::prelude::*;\n#[allow(unused_imports)] use crate::vspec::*;\n'
 
     # ---- helpers -----------------------------------------------------------------
@@ -361,6 +365,13 @@ class Assembler:
         n_err = len(self.errors)
         n_fn = len(self.manifest['functions'])
         n_rules = len(self.manifest['rules'])
+        fkey = (rel, header or '', it.name)
+        if fkey in self.force_degrade and fkey in self.ov.fns and self.ov.fns[fkey]['mode'] != 'external_body':
+            degraded = dict(self.ov.fns[fkey])
+            degraded.update({'mode': 'external_body', 'ats': [], 'loops': {}, 'after_loops': {}, 'r7': [], 'r10': []})
+            out = self._emit_fn(src, toks, all_toks, it, rel, header, degraded)
+            self.degraded.append({'file': rel, 'header': header or '', 'fn': it.name, 'errors': [self.force_degrade[fkey]]})
+            return out
         out = self._emit_fn(src, toks, all_toks, it, rel, header, None)
         if len(self.errors) > n_err:
             key = (rel, header or '', it.name)
@@ -371,7 +382,7 @@ class Assembler:
                 del self.manifest['functions'][n_fn:]
                 del self.manifest['rules'][n_rules:]
                 degraded = dict(cfg)
-                degraded.update({'mode': 'external_body', 'ats': [], 'loops': {}, 'after_loops': {}, 'r7': []})
+                degraded.update({'mode': 'external_body', 'ats': [], 'loops': {}, 'after_loops': {}, 'r7': [], 'r10': []})
                 out = self._emit_fn(src, toks, all_toks, it, rel, header, degraded)
                 self.degraded.append({'file': rel, 'header': header or '', 'fn': it.name, 'errors': errs})
         return out
@@ -463,6 +474,30 @@ class Assembler:
                 rules.append('R7')
             else:
                 self.errors.append('R7: loop %d of %s is not `for P in &E`' % (n, qual))
+        # R10 `for P in E {` -> `while let Some(P) = vf_iter_next(E) {` on listed loops whose E is a `&mut impl Iterator`
+        # (the language's own desugaring of `for`: <&mut I as IntoIterator>::into_iter is the identity, then `next()` until None);
+        # vf_iter_next is `Iterator::next` behind the ASSUMED ghost-sequence contract that Peekable::next already has
+        for n in cfg.get('r10', []):
+            if n >= len(loop_idx) or toks[loop_idx[n]].text != 'for':
+                self.errors.append('lost anchor: R10 loop %d of %s in %s' % (n, qual, rel))
+                continue
+            b = find_body_open(toks, loop_idx[n] + 1)
+            q = loop_idx[n] + 1
+            depth = 0
+            while q < b and not (toks[q].kind == 'ident' and toks[q].text == 'in' and depth == 0):
+                if toks[q].text in '([':
+                    depth += 1
+                elif toks[q].text in ')]':
+                    depth -= 1
+                q += 1
+            if q + 2 == b and toks[q + 1].kind == 'ident':
+                f = toks[loop_idx[n]]
+                edits.append((f.start, f.end - f.start, 'while let Some('))
+                edits.append((toks[q].start, toks[q].end - toks[q].start, ') = vf_iter_next('))
+                edits.append((toks[b - 1].end, 0, ')'))
+                rules.append('R10')
+            else:
+                self.errors.append('R10: loop %d of %s is not `for P in <ident>`' % (n, qual))
         for n, text in cfg['loops'].items():
             if n >= len(loop_idx):
                 self.errors.append('lost anchor: loop %d of %s in %s' % (n, qual, rel))
